@@ -1,6 +1,6 @@
 """Property -> rules table."""
 
-from .rules import inplace, maps
+from .rules import inplace, maps, exponent
 
 COMMON_ASSUMPTIONS = [
     "the repository's own source is what runs: no monkey-patching, setattr tricks or user code outside /repo",
@@ -10,6 +10,18 @@ COMMON_ASSUMPTIONS = [
 ]
 
 REGISTRY = {
+    "C01": {
+        "rules": [exponent.rule_exp_drop, exponent.rule_exp_flow, exponent.rule_exp_combine, exponent.rule_linop],
+        "explanation": (
+            "static (AST def-use flag closure): decides exponent accounting — every evaluator that turns tensors "
+            "extracted from a network into a non-network value reads that network's stored exponent or delegates "
+            "to a callee that receives the network; tensor_contract applies its exponent argument on both paths; "
+            "network combination carries the exponent; TNLinearOperator forwards all of its state and honours "
+            "is_conj in every evaluating method. Does NOT decide equality across optimizers/paths/backends, "
+            "output label order, or hyper-index summation semantics (numerical, delegated to cotengra)."
+        ),
+        "assumptions": COMMON_ASSUMPTIONS,
+    },
     "C02": {
         "rules": [maps.rule_map_owner, maps.rule_rename_notifies, maps.rule_pairing,
                   maps.rule_copy_complete, maps.rule_extra_props],
@@ -37,6 +49,7 @@ REGISTRY = {
 
 
 TECHNIQUE = {
+    "C01": "static analysis: def-use flag closure (network / extracted-tensors / exponent-read) per evaluator + constructor-forwarding and sibling rules on TNLinearOperator",
     "C02": "static analysis: who-may-write scan with local alias tracking + structural pairing/ordering rules on the owner methods",
     "C03": "static analysis: interprocedural alias/effect analysis under inplace=True/False contexts; alias-table and array-write rules",
 }
